@@ -39,6 +39,10 @@ def dom(name, run_mod, nq, nt, model=True):
 
 PROPS = {
     "C17": {
+        "properties": [
+            "C17",
+            "C17_serial"
+        ],
         "domains": [
             {
                 "name": "c17",
@@ -56,7 +60,9 @@ PROPS = {
         ],
         "assumptions": [
             "each back-end call is atomic; Lock/RLock exclude as sync.RWMutex/flock do",
-            "proved for ALL handles/programs/interleavings: lock scope, stored rings only grow, ring creation is atomic (Proofs/KeystoreLock.v); serializability is proved by exhaustive computation in Coq for bounded configurations (two writers x one operation on an existing ring; two and three handles racing on the creation of a ring) under EVERY schedule; the unbounded simulation proof of serializability is not done",
+            "proved for ALL handles/programs/interleavings: lock scope, stored rings only grow, ring creation is atomic (Proofs/KeystoreLock.v); SERIALIZABILITY of the locked sections is proved unbounded (Properties/C17_serial.v, Proofs/KeystoreSerial*.v: any number of handles, any programs over the alphabet xop = writers + the readers OpenKeyRing/ListKeys, any initial storage, every schedule; forward simulation on top of the lock-discipline invariant; serial order = order of release = order in which the exclusive lock was taken); the bounded enumeration (C17_writers_serializable_bounded) is kept",
+            "a locked section is what the code makes it: ring-level operations compute their transactions from the key ring object's (possibly stale) snapshot outside the lock, the section itself does not depend on the snapshot (C17_section_ignores_snapshot); generate-key/destroy-current are several sections and are NOT atomic (C17_generate_atomic_refuted, observation gen:err-key-added in the evidence: a FAILED generate may leave its never-current key behind; C17 speaks of successful operations only)",
+            "implementation oracle of the theorem (cmd/acra-vh/c17ser.go): every scheduled run is compared with the serial re-execution, by fresh real handles on a fresh copy of the storage, of its locked sections in commit order (storage, results, key ring objects, what readers saw); readers run as model handles (SchedX: generic machine, call tags compared)",
             "generate (open+AddKey+SetCurrent) is three separate locked updates in acra: a generate call that fails in SetCurrent leaves its key added (counted as gen:err-key-added, not a violation of the property as stated)"
         ]
     },
